@@ -251,6 +251,7 @@ func (q *Query) Build(extraRounds int) (string, []string) {
 
 // Ledger entry: one named obligation, possibly with several path instances.
 type LedgerEntry struct {
+	undecidedQs   []*Query // instances on which every solver gave up (retried with a long timeout at the end)
 	alphaOverride []byte // bounded stand-ins: alphabet of the enumeration
 	replayInput   string
 	Name      string   `json:"name"`
